@@ -38,16 +38,19 @@ __CPROVER_assigns(PUB_GHOST)
 #endif
 
 /* ---- wait(lock, ec) ------------------------------------------------------------------------------------------------- */
-#if defined(U_WAIT) || defined(U_WAIT_PRED)
 #ifdef U_WAIT
 //@FUNC
-#endif
 void wait(struct pcv *self, struct userlock *lock, struct error_code *ec)
 __CPROVER_requires(WAIT_PRE)
 /* blocks exactly once on the internal cv, with the lock order O1-O3 (asserted in the stubs) */
 __CPROVER_ensures(WAIT_POST && g_dwaits == 1 && g_user_unlocks == 1 && g_user_locks == 1)
 __CPROVER_ensures(g_may_die || !g_self_dead)
 __CPROVER_assigns(PUB_GHOST)
+//@LIFT wait_body
+#endif
+#ifdef U_WAIT_PRED
+/* callee of the predicate form: the same lifted body, inlined (no contract) */
+void wait(struct pcv *self, struct userlock *lock, struct error_code *ec)
 //@LIFT wait_body
 #endif
 
@@ -63,10 +66,8 @@ __CPROVER_assigns(PUB_GHOST)
 #endif
 
 /* ---- wait_until(lock, abs_time, ec) --------------------------------------------------------------------------------- */
-#if defined(U_WAIT_UNTIL) || defined(U_WAIT_UNTIL_PRED)
 #ifdef U_WAIT_UNTIL
 //@FUNC
-#endif
 int wait_until(struct pcv *self, struct userlock *lock, long abs_time, struct error_code *ec)
 __CPROVER_requires(WAIT_PRE)
 __CPROVER_ensures(WAIT_POST && g_dwaits == 1 && g_last_timed && g_user_unlocks == 1 && g_user_locks == 1)
@@ -75,6 +76,11 @@ __CPROVER_ensures((vx_exc == 0 && g_last_wake == thread_restart_state_signaled) 
 __CPROVER_ensures(vx_exc == 0 ==> (__CPROVER_return_value == cv_status_no_timeout || __CPROVER_return_value == cv_status_timeout || __CPROVER_return_value == cv_status_error))
 __CPROVER_ensures(g_may_die || !g_self_dead)
 __CPROVER_assigns(PUB_GHOST)
+//@LIFT wait_until_body
+#endif
+#ifdef U_WAIT_UNTIL_PRED
+/* callee of the predicate form: the same lifted body, inlined (no contract) */
+int wait_until(struct pcv *self, struct userlock *lock, long abs_time, struct error_code *ec)
 //@LIFT wait_until_body
 #endif
 
@@ -90,16 +96,19 @@ __CPROVER_assigns(PUB_GHOST)
 #endif
 
 /* ---- stop-token forms (condition_variable_any) ---------------------------------------------------------------------- */
-#if defined(U_STOP_CB) || defined(U_STOP_WAIT) || defined(U_STOP_WAIT_UNTIL)
+/* the stop callback: the lambda [&data, &ec] of the stop-token waits */
 #ifdef U_STOP_CB
 //@FUNC
-#endif
-/* the stop callback: the lambda [&data, &ec] of the stop-token waits */
 void stop_cb_body(struct vx_closure *clo)
 __CPROVER_requires(!g_il_owns && *clo->data == g_blk && g_blk->count_ >= 1 && !g_blk->mtx_.held && g_dnotify_all < 2 && (*clo->ec == &vx_throws || *clo->ec == &g_ec))
 /* takes the internal lock and notifies all, exactly once */
 __CPROVER_ensures(g_dnotify_all == __CPROVER_old(g_dnotify_all) + 1 && g_dnotify_one == __CPROVER_old(g_dnotify_one) && !g_blk->mtx_.held)
 __CPROVER_assigns(PUB_GHOST)
+//@LIFT lambda
+#endif
+#if defined(U_STOP_WAIT) || defined(U_STOP_WAIT_UNTIL)
+/* invoked by the stop_callback constructor when stop has already been requested: the same lifted body, inlined */
+void stop_cb_body(struct vx_closure *clo)
 //@LIFT lambda
 #endif
 
